@@ -143,7 +143,12 @@ def substitute(text, layered, where, depth=0, trail=None):
             return substitute(value, layered, "variable " + name, depth + 1, trail)
         return text_of(value)
 
-    return REF.sub(rep, text)
+    out = REF.sub(rep, text)
+    # "until none of a defined variable remains": a reference whose *name* was spelled with a reference
+    # (%(queue_%(tier)s)s) only takes shape after the inner one was substituted
+    if out != text and REF.search(out):
+        return substitute(out, layered, where, depth + 1, trail)
+    return out
 
 
 def convert(option, value):
